@@ -205,9 +205,76 @@ def _r1(model, res, c):
 
 # ---------------------------------------------------------------------------------------------------
 
+def _r2_interp(model, res, c, key):
+    """Lookup order decided by running the call callback on a parser built by the real constructor, the registry getter
+    summarised (it knows REGISTERED and BOTH): own table first, registry after a miss, #NAME? raised - and propagating - when
+    both miss, one invocation with the evaluated arguments.  Returns False when the callback is not followed precisely."""
+    from ..absint import Interp, Func, Const, Sym, Err, ListV, Builtin, Raised, Unmodelled
+    from .. import abshelp as H
+    m, f = c.cg.funcs[key]
+    site = fmt(key)
+    em, singles = error_singletons(model)
+    opaque = {}
+    for k2, (m2, f2) in c.cg.funcs.items():
+        if f2.name == 'get_for' and k2 in c.cg.cls_of:
+            def summary(interp, args, kwargs):
+                nm = args[-1]
+                if isinstance(nm, Const) and nm.value in ('REGISTERED', 'BOTH'):
+                    return Builtin('hx:registry-fn')
+                return Const(None)
+            opaque[k2] = summary
+    if not opaque:
+        return False
+    results = {}
+    for name in ('OWN', 'BOTH', 'REGISTERED', 'UNKNOWN'):
+        it = Interp(model, opaque=opaque)
+
+        def call(interp, st, name=name):
+            parser, gobj = H.host_objects(interp, model, c)
+            interp.extern['hx:own-fn'] = lambda i2, a, kw: (i2.state.events.append(('own', list(a))), Sym('int', 'OWNRESULT'))[1]
+            interp.extern['hx:registry-fn'] = lambda i2, a, kw: (i2.state.events.append(('registry', list(a))), Sym('int', 'REGRESULT'))[1]
+            if name in ('OWN', 'BOTH'):
+                interp.call(interp.get_method(parser, 'set_function'), [Const(name), Builtin('hx:own-fn')])
+            return interp.call(Func(m, f), [parser, Const(name), ListV([Sym('int', 'a0'), Sym('int', 'a1')])])
+        try:
+            outs = it.run(call)
+        except Unmodelled:
+            return False
+        except AnalysisError:
+            return False
+        if not outs or any(o.imprecise for o in outs):
+            return False
+        results[name] = outs
+    for name, outs in sorted(results.items()):
+        for o in outs:
+            calls = [(e[0], [getattr(a, 'name', None) for a in e[1]]) for e in o.events if e[0] in ('own', 'registry')]
+            if name in ('OWN', 'BOTH'):
+                ok = o.kind == 'return' and calls == [('own', ['a0', 'a1'])] and getattr(o.value, 'name', None) == 'OWNRESULT'
+                want = 'one call of the function registered on the parser with (a0, a1); its result is the value'
+            elif name == 'REGISTERED':
+                ok = o.kind == 'return' and calls == [('registry', ['a0', 'a1'])] and getattr(o.value, 'name', None) == 'REGRESULT'
+                want = 'one call of the built-in with (a0, a1); its result is the value'
+            else:
+                ok = o.kind == 'raise' and isinstance(o.value, Err) and o.value.message == '#NAME?' and not calls
+                want = 'the #NAME? singleton raised (not returned as a value), nothing called'
+            case = {'name is': {'OWN': 'set on the parser only', 'BOTH': 'set on the parser and a built-in', 'REGISTERED': 'a built-in only',
+                                'UNKNOWN': 'known nowhere'}[name]}
+            res.ob('R2', site, case, ok, '%s %r calls=%s' % (o.kind, o.value, calls))
+            if not ok:
+                res.violation('R2', '%s:%s:lookup-%s' % (key[0], key[1], name.lower()), m.where(f),
+                              'a call of a function whose name is %s must give: %s; the callback %s %r after the calls %s'
+                              % (case['name is'], want, 'returns' if o.kind == 'return' else 'raises', o.value, calls or 'none'),
+                              case=case, func=key[1])
+    return True
+
+
 def _r2(model, res, c, key):
     m, f = c.cg.funcs[key]
     site = fmt(key)
+    if _r2_interp(model, res, c, key):
+        # the setter writes the table the lookup reads: covered by the OWN / BOTH runs (registered through set_function itself)
+        res.analysed['call callback decided by'] = 'abstract runs on a constructed parser'
+        return
     s = sa.self_name(f)
     ps = sa.params(f)
     if len(ps) < 3:
@@ -537,14 +604,14 @@ def _r6(model, res, c):
     if ft is None:
         raise AnalysisError('FUNCTION token not found (anchor vanished)')
     try:
-        rx = re.compile(ft.regex)
+        rx = re.compile(ft.regex, getattr(ft.regex, 'flags', 0))
     except re.error as e:
         raise AnalysisError('FUNCTION token regex does not compile: %s' % e)
     earlier = []
     for t in g.lex_tokens:
         if t.order < ft.order:
             try:
-                earlier.append((t.name, re.compile(t.regex)))
+                earlier.append((t.name, re.compile(t.regex, getattr(t.regex, 'flags', 0))))
             except re.error:
                 pass
     n = 0
